@@ -9,6 +9,7 @@ import (
 	"strconv"
 	"strings"
 
+	"github.com/gookit/color"
 	"github.com/gookit/rux"
 )
 
@@ -571,7 +572,33 @@ func chainLim(g1, g2, pre, u, variant int) string {
 
 /**************** Run ****************/
 
+// Run: the case on the real router; one case in three is then run again in rux's debug mode (rux.Debug(true): it only
+// prints, to gookit/color's output, which is discarded meanwhile) - every answer must be the one of the normal run.
 func (chainEngine) Run(ops []string) (ans []string, oracle []string) {
+	ans, oracle = chainRunOnce(ops)
+	if len(ops)%3 != 0 {
+		return
+	}
+	var dbg []string
+	func() {
+		color.SetOutput(io.Discard)
+		rux.Debug(true)
+		defer func() {
+			rux.Debug(false)
+			color.ResetOutput()
+		}()
+		dbg, _ = chainRunOnce(ops)
+	}()
+	for i := range ans {
+		if i < len(dbg) && dbg[i] != ans[i] {
+			oracle = append(oracle, fmt.Sprintf("C05 debug mode: with rux.Debug(true) op %d (%s) answers %q, otherwise %q", i, ops[i], dbg[i], ans[i]))
+			break
+		}
+	}
+	return
+}
+
+func chainRunOnce(ops []string) (ans []string, oracle []string) {
 	st := &chainState{}
 	for _, op := range ops {
 		f := strings.Fields(op)
